@@ -125,6 +125,8 @@ class Program:
         if not self.src.__dict__.get("_jfsa_normal_phase_b"):
             self.src.__dict__["_jfsa_normal_phase_b"] = True
             from .normalize import normalise_function
+            from .records import normalise_records
+            normalise_records(self)
             for mi in self.modules.values():
                 for fn in [n for n in ast.walk(mi.tree) if isinstance(n, ast.FunctionDef)]:
                     normalise_function(fn, self)
